@@ -5,8 +5,10 @@ import (
 	"compress/lzw"
 	"compress/zlib"
 	"encoding/ascii85"
+	"errors"
 	"fmt"
 	"io"
+	"slices"
 	"strconv"
 	"testing"
 
@@ -185,15 +187,86 @@ func (p c07Pred) label() string {
 }
 
 // c07LibToIndep: the library encodes, independent code decodes.
+// c07FailingSink accepts every byte and fails in Close.
+type c07FailingSink struct{ bytes.Buffer }
+
+var errC07Close = errors.New("verif: the destination cannot be closed")
+
+func (s *c07FailingSink) Close() error { return errC07Close }
+
+// c07Disturb uses an encoder the way a caller with a failing destination does:
+// Close fails, and Close is called again (explicitly and deferred, or as a
+// retry).  Whatever that leaves behind must not reach later encoders.
+func c07Disturb(c *kit.Case, f pdf.Filter, v pdf.Version, rg *kit.Rand) {
+	w, err := f.Encode(v, &c07FailingSink{})
+	if err != nil {
+		return
+	}
+	w.Write(rg.Bytes(rg.Intn(100)))
+	for i := 1 + rg.Intn(3); i > 0; i-- {
+		w.Close()
+	}
+	c.Inc("encoders_closed_repeatedly_over_a_failing_destination")
+}
+
+// c07EncodeTwo runs two encoders of the same filter side by side.
+func c07EncodeTwo(f pdf.Filter, v pdf.Version, d1, d2 []byte, wsize int, rg *kit.Rand) ([]byte, []byte, error) {
+	s1, s2 := &c06Sink{}, &c06Sink{}
+	w1, err := f.Encode(v, s1)
+	if err != nil {
+		return nil, nil, &c06Refused{err}
+	}
+	w2, err := f.Encode(v, s2)
+	if err != nil {
+		return nil, nil, &c06Refused{err}
+	}
+	h := len(d1) / 2
+	for _, step := range []func() error{
+		func() error { return c06Write(w1, d1[:h], wsize, rg) },
+		func() error { return c06Write(w2, d2, wsize, rg) },
+		func() error { return c06Write(w1, d1[h:], wsize, rg) },
+		w1.Close, w2.Close,
+	} {
+		if err := step(); err != nil {
+			return s1.Bytes(), s2.Bytes(), err
+		}
+	}
+	return s1.Bytes(), s2.Bytes(), nil
+}
+
 func c07LibToIndep(c *kit.Case, rg *kit.Rand, p c07Pred, v pdf.Version, data []byte, wsize int) {
 	f := p.libFilter()
+	if rg.Chance(1, 16) {
+		c07Disturb(c, f, v, rg)
+	}
+	if rg.Chance(1, 8) {
+		// two encoders alive at the same time: each output stands for its own input
+		d2 := bytes.Clone(data)
+		slices.Reverse(d2)
+		e1, e2, err := c07EncodeTwo(f, v, data, d2, wsize, rg)
+		if err != nil {
+			c.Violationf(p.label()+"/lib-to-indep/side-by-side/encode-error", "%s version %v input %s: %v", p, v, c06Hex(data), err)
+			return
+		}
+		c07CheckEncoded(c, p, v, data, e1, "side-by-side/")
+		c07CheckEncoded(c, p, v, d2, e2, "side-by-side/")
+		c.Inc("encoder_pairs_side_by_side")
+		return
+	}
 	enc, err := c06Encode(f, v, data, wsize, rg)
 	if err != nil {
 		c.Violationf(p.label()+"/lib-to-indep/encode-error", "%s version %v input %s: %v", p, v, c06Hex(data), err)
 		return
 	}
+	c07CheckEncoded(c, p, v, data, enc, "")
+}
+
+// c07CheckEncoded decodes enc (written by the library for data) with the
+// independent implementations.
+func c07CheckEncoded(c *kit.Case, p c07Pred, v pdf.Version, data, enc []byte, how string) {
+	var err error
 	fail := func(sig string, format string, args ...any) {
-		c.Violationf(p.label()+"/lib-to-indep/"+sig, "%s version %v\ninput:   %s\nencoded: %s\n%s", p, v, c06Hex(data), c06Hex(enc), fmt.Sprintf(format, args...))
+		c.Violationf(p.label()+"/lib-to-indep/"+how+sig, "%s version %v\ninput:   %s\nencoded: %s\n%s", p, v, c06Hex(data), c06Hex(enc), fmt.Sprintf(format, args...))
 	}
 	var payload []byte
 	if p.comp == "Flate" {
